@@ -86,9 +86,18 @@
 #include "stir/scatter/SingleScatterSimulation.h"
 #include "stir/modelling/PatlakPlot.h"
 #include "stir/spatial_transformation/GatedSpatialTransformation.h"
+#include "stir/VoxelsOnCartesianGrid.h"
+#include "stir/ProjDataInfo.h"
+#include "stir/Scanner.h"
+#include "stir/ExamInfo.h"
+#include "stir/Bin.h"
+#include "stir/recon_buildblock/ProjMatrixElemsForOneBin.h"
 #include <memory>
 #include <functional>
 #include <set>
+#include <type_traits>
+#include <fcntl.h>
+#include <unistd.h>
 
 using namespace vf;
 using namespace stir;
@@ -97,10 +106,19 @@ namespace {
 
 typedef DiscretisedDensity<3, float> Dens;
 
+//! what can be done with an object of a registered type beyond parsing it through the registry (filled in per concrete type)
+struct TypeOps
+{
+  std::function<std::shared_ptr<RegisteredObjectBase>()> make;                                // default constructor
+  std::function<std::shared_ptr<RegisteredObjectBase>(const RegisteredObjectBase&)> copy;     // copy constructor (empty: not accessible)
+  std::function<std::shared_ptr<RegisteredObjectBase>(const RegisteredObjectBase&)> clone;    // clone() (empty: the type has none)
+  std::function<void(RegisteredObjectBase&, const RegisteredObjectBase&)> assign;             // operator= (empty: not accessible)
+};
 struct Entry
 {
   std::string name;                            // registered name as listed by the registry
   std::function<std::string()> default_text;   // parameter_info() of a default-constructed object of that type (empty fn: type not in the table)
+  std::shared_ptr<TypeOps> ops;                // null: type not in the table
 };
 struct Reg
 {
@@ -109,6 +127,7 @@ struct Reg
   std::function<std::shared_ptr<RegisteredObjectBase>(std::istream*, const std::string&)> make;
   std::vector<Entry> entries; // filled at first use from list_registered_names
   std::map<std::string, std::function<std::string()>> ctors;
+  std::map<std::string, std::shared_ptr<TypeOps>> ops;
 };
 
 template <class Root>
@@ -123,6 +142,27 @@ reg(const char* n)
   };
   return r;
 }
+template <class T, class = void>
+struct has_clone : std::false_type
+{};
+template <class T>
+struct has_clone<T, std::void_t<decltype(std::declval<const T&>().clone())>> : std::true_type
+{};
+//! copy constructor / clone() / operator= of T, where the type offers them (found out at compile time, nothing is listed by hand)
+template <class T>
+std::shared_ptr<TypeOps>
+make_ops()
+{
+  auto ops = std::make_shared<TypeOps>();
+  ops->make = []() { return std::shared_ptr<RegisteredObjectBase>(new T); };
+  if constexpr (std::is_copy_constructible<T>::value)
+    ops->copy = [](const RegisteredObjectBase& o) { return std::shared_ptr<RegisteredObjectBase>(new T(dynamic_cast<const T&>(o))); };
+  if constexpr (has_clone<T>::value)
+    ops->clone = [](const RegisteredObjectBase& o) { return std::shared_ptr<RegisteredObjectBase>(dynamic_cast<const T&>(o).clone()); };
+  if constexpr (std::is_copy_assignable<T>::value)
+    ops->assign = [](RegisteredObjectBase& d, const RegisteredObjectBase& o) { dynamic_cast<T&>(d) = dynamic_cast<const T&>(o); };
+  return ops;
+}
 //! add the default constructor of a registered class T to its registry
 template <class T>
 void
@@ -132,6 +172,7 @@ ctor(Reg& r)
     T o;
     return o.parameter_info();
   };
+  r.ops[c17::ref_standardise(T::registered_name)] = make_ops<T>();
 }
 
 typedef ParametricVoxelsOnCartesianGrid PVox;
@@ -292,6 +333,9 @@ registries()
                 auto it = r.ctors.find(c17::ref_standardise(l));
                 if (it != r.ctors.end())
                   e.default_text = it->second;
+                auto io = r.ops.find(c17::ref_standardise(l));
+                if (io != r.ops.end())
+                  e.ops = io->second;
                 r.entries.push_back(e);
               }
         }
@@ -727,6 +771,413 @@ workable_list()
   return v;
 }
 
+// ---- used objects: copies, clones, assignment, re-parsing, use --------------------------------------------------------
+// ParsingObject.h: "This class is essentially a wrapper for KeyParser, such that it is safe to copy ParsingObject objects ...
+// ParsingObject solves this by having a copy constructor that reinitialises all keys in its own (protected) KeyParser object."
+// A copy (copy constructor, clone(), operator=) of an object of a registered class is itself an object of that class: it has
+// to print the text of the object it was copied from, and that text has to parse back into it.  The same holds for an object
+// that has been used before it is printed (parsed before, printed before, set up / applied).
+enum HistOp
+{
+  HO_COPY,
+  HO_CLONE,
+  HO_ASSIGN,
+  HO_REPARSE_SAME,
+  HO_REPARSE_OTHER,
+  HO_USE,
+  HO_PARSE_FILE,
+  HO_PRINT_AGAIN,
+  HO_NOPS
+};
+const char* const HIST_NAME[] = { "copy constructor", "clone()", "operator=", "parse(own text) on the used object", "parse(other text) on the used object, then back",
+                                  "use (set_up / apply / geometry calls)", "parse(filename)", "parameter_info() again" };
+
+struct UseData
+{
+  shared_ptr<Scanner> scanner;
+  shared_ptr<ProjDataInfo> pdi;
+  shared_ptr<ExamInfo> exam;
+  shared_ptr<VoxelsOnCartesianGrid<float>> image; // matches pdi (projectors)
+  shared_ptr<VoxelsOnCartesianGrid<float>> small; // 7x7x5 (filters, priors)
+};
+UseData&
+use_data()
+{
+  static UseData u;
+  if (!u.scanner)
+    {
+      u.scanner.reset(new Scanner(Scanner::E953));
+      u.pdi = ProjDataInfo::construct_proj_data_info(u.scanner, 1, 2, u.scanner->get_num_detectors_per_ring() / 2, 33, false);
+      u.exam.reset(new ExamInfo);
+      u.image.reset(new VoxelsOnCartesianGrid<float>(u.exam, *u.pdi, 0.25F));
+      u.small.reset(new VoxelsOnCartesianGrid<float>(u.exam, IndexRange<3>(make_coordinate(0, -3, -3), make_coordinate(4, 3, 3)),
+                                                     CartesianCoordinate3D<float>(0.F, 0.F, 0.F), CartesianCoordinate3D<float>(2.5F, 2.F, 2.F)));
+    }
+  return u;
+}
+//! "use" an object the cheap way its class allows; returns a label for the statistics ("" = nothing available for this class).
+//! What the calls compute is not looked at here (other properties do that); an exception or assertion from them is counted only.
+std::string
+use_object(RegisteredObjectBase& o, long a)
+{
+  UseData& u = use_data();
+  std::string what;
+  {
+    // preconditions of the "use": the SPECT matrices need SPECT (arc-corrected, one segment) data and dereference the failed cast
+    // otherwise, the matrix "From File" needs a file; objects that contain one of them are not used (only printed/copied/parsed)
+    std::string info = o.parameter_info();
+    for (char& ch : info)
+      ch = char(tolower((unsigned char)ch));
+    if (info.find("spect") != std::string::npos || info.find("from file") != std::string::npos || info.find("parallelproj") != std::string::npos)
+      return "";
+  }
+  // (some set_up functions print their kernels with printf: stdout is the channel to the driver)
+  struct MuteStdout
+  {
+    int saved;
+    MuteStdout()
+    {
+      std::cout.flush();
+      fflush(stdout);
+      saved = dup(1);
+      const int dn = open("/dev/null", O_WRONLY);
+      if (dn >= 0)
+        {
+          dup2(dn, 1);
+          close(dn);
+        }
+    }
+    ~MuteStdout()
+    {
+      std::cout.flush();
+      fflush(stdout);
+      if (saved >= 0)
+        {
+          dup2(saved, 1);
+          close(saved);
+        }
+    }
+  } mute;
+  try
+    {
+      if (auto* sh = dynamic_cast<Shape3D*>(&o))
+        {
+          what = "Shape3D: is_inside_shape / translate / scale";
+          (void)sh->is_inside_shape(CartesianCoordinate3D<float>(0.F, 0.F, 0.F));
+          if (a % 2)
+            sh->translate(CartesianCoordinate3D<float>(1.5F, -2.F, 0.25F));
+          if ((a / 2) % 2)
+            sh->scale(CartesianCoordinate3D<float>(2.F, 0.5F, 1.25F));
+          (void)sh->is_inside_shape(CartesianCoordinate3D<float>(1.F, 1.F, 1.F));
+        }
+      else if (auto* dp = dynamic_cast<DataProcessor<Dens>*>(&o))
+        {
+          what = "DataProcessor: apply to a 7x7x5 image";
+          VoxelsOnCartesianGrid<float> im(*u.small);
+          int k = 0;
+          for (auto it = im.begin_all(); it != im.end_all(); ++it)
+            *it = float(1 + (k++ * 7) % 13);
+          (void)dp->apply(im);
+        }
+      else if (auto* pr = dynamic_cast<GeneralisedPrior<Dens>*>(&o))
+        {
+          what = "GeneralisedPrior: set_up + compute_value on a 7x7x5 image";
+          shared_ptr<VoxelsOnCartesianGrid<float>> im(new VoxelsOnCartesianGrid<float>(*u.small));
+          int k = 0;
+          for (auto it = im->begin_all(); it != im->end_all(); ++it)
+            *it = float(1 + (k++ * 5) % 11);
+          if (pr->set_up(im) == Succeeded::yes)
+            (void)pr->compute_value(*im);
+        }
+      else if (auto* pm = dynamic_cast<ProjMatrixByBin*>(&o))
+        {
+          what = "ProjMatrixByBin: set_up + one row";
+          pm->set_up(u.pdi, u.image);
+          ProjMatrixElemsForOneBin row;
+          pm->get_proj_matrix_elems_for_one_bin(row, Bin(0, 3, 2, 1));
+        }
+      else if (auto* fp = dynamic_cast<ForwardProjectorByBin*>(&o))
+        {
+          what = "ForwardProjectorByBin: set_up";
+          fp->set_up(u.pdi, u.image);
+        }
+      else if (auto* bp = dynamic_cast<BackProjectorByBin*>(&o))
+        {
+          what = "BackProjectorByBin: set_up";
+          bp->set_up(u.pdi, u.image);
+        }
+      else if (auto* pp = dynamic_cast<ProjectorByBinPair*>(&o))
+        {
+          what = "ProjectorByBinPair: set_up";
+          (void)pp->set_up(u.pdi, u.image);
+        }
+      else if (auto* bn = dynamic_cast<BinNormalisation*>(&o))
+        {
+          what = "BinNormalisation: set_up";
+          (void)bn->set_up(u.exam, u.pdi);
+        }
+    }
+  catch (const stir_verif::AssertionFailure& e)
+    {
+      stats().count("use of the object ended in an internal assertion (not part of this property): " + std::string(e.what()).substr(0, 80));
+      return what + " (assertion)";
+    }
+  catch (const std::exception& e)
+    {
+      stats().count("use of the object refused with error(): " + what);
+      return what + " (refused)";
+    }
+  return what;
+}
+
+//! standardised keys of the lines "key :=" without a value (KeyParser.h: "if the keyword had no value, set_variable will do nothing")
+std::vector<std::string>
+keys_without_value(const std::string& text)
+{
+  std::vector<std::string> k;
+  for (const std::string& l : c17::split_lines(text))
+    {
+      const Line s = split_line(l);
+      // (an empty list "{}" is no value either for the array types: operator>> of Array<n> fails on it, so the key is not set;
+      //  a fresh object prints "{}" for an empty array, a used one cannot be brought back to it by parsing)
+      std::string v = s.value;
+      while (!v.empty() && (v.back() == '\\' || v.back() == ' '))
+        v.pop_back();
+      if (s.has_assign && (v.empty() || v == "{}"))
+        k.push_back(c17::ref_standardise(s.key));
+    }
+  std::sort(k.begin(), k.end());
+  return k;
+}
+
+bool
+parse_obj(RegisteredObjectBase& o, const std::string& text, std::string& why)
+{
+  std::istringstream in(text);
+  try
+    {
+      const bool ok = o.parse(in);
+      if (!ok)
+        why = "parse returned false";
+      return ok;
+    }
+  catch (const stir_verif::AssertionFailure&)
+    {
+      throw;
+    }
+  catch (const std::exception& e)
+    {
+      why = std::string("exception: ") + std::string(e.what()).substr(0, 200);
+      return false;
+    }
+}
+
+//! t1: the (normalised) text of an accepted object of this entry; other: the text of another accepted object of the same entry
+Result
+history_checks(const Entry& ent, const std::string& id, const std::string& t1, const std::string& other, const json& hist)
+{
+  const TypeOps& ops = *ent.ops;
+  std::string why;
+  // the object under test: constructed directly (not through the registry), parsed and printed once = "used"
+  std::shared_ptr<RegisteredObjectBase> cur = ops.make();
+  VF_CHECK(parse_obj(*cur, t1, why), "ParsingObject::parse refuses the text the registry's parser accepted: ", id, " :: ", why, "\n", t1);
+  std::string p = cur->parameter_info();
+  VF_CHECK(p == t1, "an object parsed directly prints another text than the object made by read_registered_object from the same text: ", id, "\n--- registry:\n", t1,
+           "\n--- direct:\n", p);
+  int step = 0;
+  for (const auto& h : hist)
+    {
+      ++step;
+      const int op = int(((h[0].get<long>() % HO_NOPS) + HO_NOPS) % HO_NOPS);
+      const long a = std::labs(h[1].get<long>());
+      const std::string ctx = cat(id, ", history step ", step, " (", HIST_NAME[op], ")");
+      switch (op)
+        {
+        case HO_COPY:
+        case HO_CLONE:
+        case HO_ASSIGN:
+          {
+            std::shared_ptr<RegisteredObjectBase> n;
+            if (op == HO_COPY)
+              {
+                if (!ops.copy)
+                  {
+                    stats().count("no accessible copy constructor: " + id);
+                    break;
+                  }
+                n = ops.copy(*cur);
+              }
+            else if (op == HO_CLONE)
+              {
+                if (!ops.clone)
+                  {
+                    stats().count("no clone(): " + id);
+                    break;
+                  }
+                try
+                  {
+                    n = ops.clone(*cur);
+                  }
+                catch (const stir_verif::AssertionFailure&)
+                  {
+                    throw;
+                  }
+                catch (const std::exception& e)
+                  {
+                    stats().count("clone() reports that it is not supported (error()): " + id);
+                    break;
+                  }
+                VF_CHECK(n != nullptr, "clone() returned a null pointer: ", ctx);
+              }
+            else
+              {
+                if (!ops.assign)
+                  {
+                    stats().count("no accessible operator=: " + id);
+                    break;
+                  }
+                n = ops.make();
+                if (a % 2)
+                  (void)n->parameter_info(); // the target of the assignment has been used as well
+                ops.assign(*n, *cur);
+              }
+            stats().cls(std::string("history: ") + HIST_NAME[op]);
+            const std::string pc = n->parameter_info();
+            VF_CHECK(pc == p, "the copy prints another text than the object it was made from: ", ctx, "\n--- original:\n", p, "\n--- copy:\n", pc);
+            VF_CHECK(parse_obj(*n, p, why), "the copy refuses the text of the object it was made from: ", ctx, " :: ", why, "\n", p);
+            const std::string pc2 = n->parameter_info();
+            VF_CHECK(pc2 == p, "the copy prints another text after parsing the original's text: ", ctx, "\n--- original:\n", p, "\n--- copy:\n", pc2);
+            // the original is not disturbed by what was done to the copy
+            const std::string po = cur->parameter_info();
+            VF_CHECK(po == p, "the original prints another text after its copy was parsed: ", ctx, "\n--- before:\n", p, "\n--- after:\n", po);
+            // ... also not when the copy is given OTHER values (KeyParser.h warns that a copied KeyParser still points to the variables
+            // of the object it was copied from; ParsingObject's copy constructor / operator= exist to prevent exactly that)
+            if (!other.empty() && other != p && keys_without_value(other) == keys_without_value(p))
+              {
+                stats().cls("history: copy parses other values, original must keep its own");
+                VF_CHECK(parse_obj(*n, other, why), "the copy refuses a text that a fresh object of its type accepts: ", ctx, " :: ", why, "\n", other);
+                const std::string pn = n->parameter_info();
+                const std::string po2 = cur->parameter_info();
+                VF_CHECK(po2 == p, "parsing other values into the copy changed the ORIGINAL: ", ctx, "\n--- original before:\n", p, "\n--- original after:\n", po2);
+                VF_CHECK(pn == other, "the copy that parses another text prints something else than a fresh object that parses it: ", ctx, "\n--- fresh:\n", other,
+                         "\n--- copy:\n", pn);
+                VF_CHECK(parse_obj(*n, p, why), "the copy refuses the original's text the second time: ", ctx, " :: ", why);
+                VF_CHECK(n->parameter_info() == p, "the copy does not come back to the original's text: ", ctx);
+              }
+            if ((a / 2) % 2)
+              cur = n; // the history goes on with the copy
+          }
+          break;
+        case HO_REPARSE_SAME:
+          {
+            stats().cls(std::string("history: ") + HIST_NAME[op]);
+            VF_CHECK(parse_obj(*cur, p, why), "a used object refuses its own text: ", ctx, " :: ", why, "\n", p);
+            const std::string p2 = cur->parameter_info();
+            VF_CHECK(p2 == p, "a used object prints another text after parsing its own text: ", ctx, "\n--- before:\n", p, "\n--- after:\n", p2);
+          }
+          break;
+        case HO_REPARSE_OTHER:
+          {
+            // a keyword without value leaves the variable alone (documented), so the two texts have to agree in their value-less keys
+            if (other.empty() || other == p || keys_without_value(other) != keys_without_value(p))
+              {
+                stats().count("re-parse with another text not applicable (same text, or different value-less keys)");
+                break;
+              }
+            stats().cls(std::string("history: ") + HIST_NAME[op]);
+            VF_CHECK(parse_obj(*cur, other, why), "a used object refuses a text that a fresh object of its type accepts: ", ctx, " :: ", why, "\n", other);
+            const std::string q = cur->parameter_info();
+            VF_CHECK(q == other, "a used object that parses another text prints something else than a fresh object that parses it: ", ctx, "\n--- fresh:\n", other,
+                     "\n--- used:\n", q);
+            VF_CHECK(parse_obj(*cur, p, why), "a used object refuses its earlier text: ", ctx, " :: ", why, "\n", p);
+            const std::string p2 = cur->parameter_info();
+            VF_CHECK(p2 == p, "a used object does not come back to its earlier text: ", ctx, "\n--- before:\n", p, "\n--- after:\n", p2);
+          }
+          break;
+        case HO_USE:
+          {
+            const std::string what = use_object(*cur, a);
+            if (what.empty())
+              {
+                stats().count("no cheap use available for this class");
+                break;
+              }
+            if (what.back() == ')')
+              {
+                // the use was refused with error() or an assertion: the object may be left in a state that is nobody's contract
+                // (e.g. TimedObject's timer still running, whose destructor asserts): it is neither examined further nor destructed
+                static auto* graveyard = new std::vector<std::shared_ptr<RegisteredObjectBase>>; // (never destructed, not even at exit)
+                graveyard->push_back(cur);
+                return Result::pass();
+              }
+            stats().cls(std::string("history: ") + HIST_NAME[op]);
+            stats().cls("use: " + what);
+            const std::string pu = cur->parameter_info();
+            if (pu != p)
+              stats().cls("use changed the printed text (setters / set_up): the new text is what has to round-trip");
+            std::shared_ptr<RegisteredObjectBase> f = ops.make();
+            VF_CHECK(parse_obj(*f, pu, why), "the text a used object prints is refused by a fresh object: ", ctx, " :: ", why, "\n", pu);
+            const std::string pf = f->parameter_info();
+            VF_CHECK(pf == pu, "the text a used object prints is not reproduced after re-parsing: ", ctx, "\n--- used object:\n", pu, "\n--- re-parsed:\n", pf);
+            p = pu;
+          }
+          break;
+        case HO_PARSE_FILE:
+          {
+            stats().cls(std::string("history: ") + HIST_NAME[op]);
+            const std::string fn = c17::scratch_dir() + "/reg.par";
+            c17::write_file(fn, p);
+            bool ok = false;
+            try
+              {
+                ok = cur->parse(fn.c_str());
+              }
+            catch (const stir_verif::AssertionFailure&)
+              {
+                throw;
+              }
+            catch (const std::exception& e)
+              {
+                why = e.what();
+              }
+            c17::clean_scratch();
+            VF_CHECK(ok, "parse(filename) refuses the text parse(stream) accepts: ", ctx, " :: ", why, "\n", p);
+            const std::string p2 = cur->parameter_info();
+            VF_CHECK(p2 == p, "parse(filename) gives another object than parse(stream): ", ctx, "\n--- stream:\n", p, "\n--- file:\n", p2);
+            // the same on an object that has not been used at all
+            c17::write_file(fn, p);
+            std::shared_ptr<RegisteredObjectBase> f = ops.make();
+            ok = false;
+            try
+              {
+                ok = f->parse(fn.c_str());
+              }
+            catch (const stir_verif::AssertionFailure&)
+              {
+                throw;
+              }
+            catch (const std::exception& e)
+              {
+                why = e.what();
+              }
+            c17::clean_scratch();
+            VF_CHECK(ok, "parse(filename) on a fresh object refuses the text parse(stream) accepts: ", ctx, " :: ", why, "\n", p);
+            const std::string p3 = f->parameter_info();
+            VF_CHECK(p3 == p, "parse(filename) on a fresh object gives another object than parse(stream): ", ctx, "\n--- stream:\n", p, "\n--- file:\n", p3);
+          }
+          break;
+        default:
+          {
+            stats().cls(std::string("history: ") + HIST_NAME[op]);
+            const std::string p2 = cur->parameter_info();
+            VF_CHECK(p2 == p, "parameter_info() twice gives two texts: ", ctx, "\n--- first:\n", p, "\n--- second:\n", p2);
+          }
+          break;
+        }
+    }
+  return Result::pass();
+}
+
 json
 gen(Src& s, int size)
 {
@@ -759,6 +1210,12 @@ gen(Src& s, int size)
   // "fill": every numeric 0 becomes 1 first (many defaults are deliberately invalid: zero lengths, radii, ...)
   c["fill"] = s.chance(1, 8);
   c["noise"] = s.chance(1, 2) ? long(s.range(1, 1 << 30)) : 0L;
+  // history of the object between parsing and printing: copies, clones, assignment, re-parsing, use
+  json hist = json::array();
+  const int nh = int(s.range(1, 2 + size / 20));
+  for (int i = 0; i < nh; ++i)
+    hist.push_back({ long(s.range(0, HO_NOPS - 1)), long(s.range(0, 15)) });
+  c["hist"] = hist;
   return c;
 }
 
@@ -873,6 +1330,10 @@ check(const json& c)
         }
       return Result::reject("edited text refused: " + id);
     }
+  // RegisteredObjectBase::get_registered_name(): "Returns the name of the type of the object" = the name it is registered under
+  // (names are compared the Interfile way: the registries use interfile_less)
+  VF_CHECK(c17::ref_standardise(o1->get_registered_name()) == c17::ref_standardise(name), "object made by read_registered_object(.., '", name,
+           "') says its registered name is '", o1->get_registered_name(), "'");
   const std::string t1 = o1->parameter_info();
   auto o2 = parse_text(r, name, t1, why);
   VF_CHECK(o2 != nullptr, "the text an accepted object prints for itself is refused: ", id, " :: ", why, "\n--- printed text:\n", t1);
@@ -923,12 +1384,29 @@ check(const json& c)
               + ((g.range(0, 3) == 0 && (s.value.empty() || s.value.back() != '\\')) ? "  " : "");
         }
       const std::string GN = c17::join_lines(nl);
-      auto on = parse_text(r, name, GN, why);
+      // (the registered name itself is looked up with interfile_less: its spelling may vary in the same way)
+      auto on = parse_text(r, noisy_key(name, g), GN, why);
       VF_CHECK(on != nullptr, "re-spelled keywords (case/blank/tab/_/!) make the text unparsable: ", id, " :: ", why, "\n", GN);
       const std::string tn = on->parameter_info();
       VF_CHECK(tn == t1, "re-spelled keywords change the parsed object: ", id, "\n--- plain:\n", t1, "\n--- re-spelled input:\n", GN,
                "\n--- result:\n", tn);
       stats().cls("keyword spelling noise");
+    }
+  // ---- used objects (copy / clone / operator= / re-parse / use)
+  if (ent.ops && c.contains("hist") && !c["hist"].empty())
+    {
+      // the text of another accepted object of this entry: the base text without the edits
+      std::string other;
+      if (edited)
+        {
+          std::string w2;
+          auto ob = parse_text(r, name, from_default ? t0 : wit->second.text, w2);
+          if (ob)
+            other = ob->parameter_info();
+        }
+      const Result hr = history_checks(ent, id, t1, other, c["hist"]);
+      if (hr.failed())
+        return hr;
     }
   if (edited && t1 != t0)
     {
@@ -955,7 +1433,7 @@ enumerate(uint64_t idx, int, json& c)
 {
   auto& R = registries();
   uint64_t k = idx;
-  for (int pass = 0; pass < 2; ++pass)
+  for (int pass = 0; pass < 3; ++pass)
     for (std::size_t ri = 0; ri < R.size(); ++ri)
       {
         const uint64_t n = R[ri].entries.empty() ? 1 : R[ri].entries.size();
@@ -965,12 +1443,17 @@ enumerate(uint64_t idx, int, json& c)
             c["reg"] = int(ri);
             c["ent"] = int(k);
             c["edits"] = json::array();
-            if (pass == 1)
+            if (pass >= 1)
               c["edits"].push_back({ int(k * 7 + ri), 0, int(k) });
             c["nest"] = json::array();
             c["fill"] = false;
-            c["base"] = pass == 1 ? "workable" : "default";
+            c["base"] = pass >= 1 ? "workable" : "default";
             c["noise"] = pass == 1 ? long(1000 + k) : 0L;
+            c["hist"] = json::array();
+            if (pass == 2) // every history operation once, on every entry: use, copy, clone, assign (fresh / used target), re-parse, file
+              for (long h : { long(HO_USE), long(HO_COPY), long(HO_CLONE), long(HO_ASSIGN), long(HO_ASSIGN), long(HO_REPARSE_SAME), long(HO_REPARSE_OTHER),
+                              long(HO_PARSE_FILE), long(HO_PRINT_AGAIN), long(HO_COPY) })
+                c["hist"].push_back({ h, long(c["hist"].size()) });
             return true;
           }
         k -= n;
@@ -989,7 +1472,7 @@ the_property()
   p.check = check;
   p.nontrivial = nontrivial;
   p.enumerate = enumerate;
-  p.shrink_lists = { "edits" };
+  p.shrink_lists = { "edits", "hist" };
   p.rule = "";
   return p;
 }
